@@ -31,7 +31,10 @@ KANI_LIB_C = os.path.join(KANI_HOME, "library", "kani", "kani_lib.c")
 CBMC_FLAGS = ["--no-malloc-may-fail", "--no-undefined-shift-check", "--no-signed-overflow-check", "--nan-check",
               "--no-self-loops-to-assumptions", "--no-pointer-primitive-check", "--object-bits", "16"]
 
-PROP_LINE = re.compile(r"^\[(?P<name>[^\]]+)\] (?:line (?P<line>\d+) )?(?P<desc>.*): (?P<status>SUCCESS|FAILURE|UNKNOWN|ERROR)$")
+# a property id is `<function>.<class>.<n>`; the function part may itself contain brackets (`<usize as SliceIndex<[T]>>::index`),
+# so the id is delimited by its `.class.n] ` ending, not by the first `]`
+PROP_LINE = re.compile(r"^\[(?P<name>.+?\.\d+)\] (?:line (?P<line>\d+) )?(?P<desc>.*): (?P<status>SUCCESS|FAILURE|UNKNOWN|ERROR)$")
+SUMMARY_LINE = re.compile(r"^\*\* (\d+) of (\d+) failed")
 HEAD_LINE = re.compile(r"^(?P<file>\S.*) function (?P<fn>.+)$")
 
 
@@ -161,16 +164,41 @@ def parse_cbmc(text):
     cur_file, cur_fn = "", ""
     failed, csat, cunsat = [], [], []
     checks = proved = unknown = 0
+    n_lines = n_fail_lines = 0
+    summary = None
     in_results = False
-    for line in text.split("\n"):
+    STATUS_END = re.compile(r": (SUCCESS|FAILURE|UNKNOWN|ERROR)$")
+    joined, pend = [], None
+    for raw in text.split("\n"):
+        # a property description can span lines (Kani's "please report" texts): the status is at the end of the last one
+        if pend is not None:
+            pend += " " + raw.strip()
+            if STATUS_END.search(raw):
+                joined.append(pend)
+                pend = None
+            continue
+        if raw.startswith("[") and "] " in raw and not STATUS_END.search(raw) and not raw.startswith("[Kani]"):
+            pend = raw
+            continue
+        joined.append(raw)
+    if pend is not None:
+        joined.append(pend)
+    for line in joined:
         if line.startswith("** Results:"):
             in_results = True
             continue
         if not in_results:
             continue
+        sm = SUMMARY_LINE.match(line)
+        if sm:
+            summary = (int(sm.group(1)), int(sm.group(2)))
+            continue
         m = PROP_LINE.match(line)
         if m:
             name, desc, status = m.group("name"), m.group("desc"), m.group("status")
+            n_lines += 1
+            if status == "FAILURE":
+                n_fail_lines += 1
             cls = name.rsplit(".", 2)[-2] if name.count(".") >= 2 else name.split(".")[0]
             desc = re.sub(r"^\[KANI_CHECK_ID_[^\]]*\]\s*", "", desc).strip()
             desc = desc.strip('"')
@@ -205,6 +233,10 @@ def parse_cbmc(text):
     if m:
         stats["sat_variables"], stats["sat_clauses"] = int(m[-1][0]), int(m[-1][1])
     done = "VERIFICATION SUCCESSFUL" in text or "VERIFICATION FAILED" in text
+    # every property CBMC reports must have been parsed: "** F of N failed" is the cross-check
+    if done and summary is not None and (summary[1] != n_lines or summary[0] != n_fail_lines):
+        unknown += max(1, abs(summary[1] - n_lines) + abs(summary[0] - n_fail_lines))
+        stats["parse_mismatch"] = "cbmc reports %d of %d failed, parsed %d of %d" % (summary[0], summary[1], n_fail_lines, n_lines)
     return {"failed": failed, "covers_sat": csat, "covers_unsat": cunsat, "checks": checks, "proved": proved,
             "unknown": unknown, "stats": stats, "done": done}
 
@@ -340,7 +372,8 @@ def verify_one(meta, unwind, solver, timeout, rss_gb, keep_log_dir, rec_limit=No
     else:
         res["status"] = "pass"
         try:
-            os.remove(logp)
+            if not os.environ.get("VERIF_KEEP_LOGS"):
+                os.remove(logp)
         except OSError:
             pass
     try:
